@@ -74,13 +74,15 @@ pub fn run_case(case: &Value) -> Vec<Value> {
     let mut ev = json!({"ev": "pipe", "doc": case["doc"], "fs": case["fs"], "enc": declared, "plain_out": lossy(&plain_out), "is_empty": is_empty,
                         "body": lossy(&body)});
     let supported = enc == "gzip" || enc == "deflate" || enc == "br";
-    if !supported {
+    // a list made of unknown actions only builds nothing: the chain must be inert like for an unsupported encoding
+    let builds = case["fs"].as_array().unwrap().iter().any(|f| s(f, "act") != "unknown");
+    if !supported || !builds {
         // the chain must be inert: whatever bytes arrive leave untouched
         let junk: Vec<u8> = compress("gzip", 6, &body);
         let o1 = run(case, &declared, &[&junk]);
         let pieces: Vec<&[u8]> = junk.chunks(3).collect();
         let o2 = run(case, &declared, &pieces);
-        ev["untouched"] = json!(enc == "none" || (o1 == junk && o2 == junk));
+        ev["untouched"] = json!((enc == "none" && builds) || (o1 == junk && o2 == junk));
         ev["runs"] = json!(2);
         ev["diffs"] = json!([]);
         return vec![ev];
